@@ -144,14 +144,9 @@ func (p *FSM) Open(_ <-chan struct{}) (uint64, error) {
 
 	randomDir := rp.GetNewRandomDBDirName()
 	var dbdir string
-	if rp.IsNewRun(p.fs, p.dirname) {
+	newRun := rp.IsNewRun(p.fs, p.dirname)
+	if newRun {
 		dbdir = filepath.Join(p.dirname, randomDir)
-		if err := rp.SaveCurrentDBDirName(p.fs, p.dirname, randomDir); err != nil {
-			return 0, err
-		}
-		if err := rp.ReplaceCurrentDBFile(p.fs, p.dirname); err != nil {
-			return 0, err
-		}
 	} else {
 		if err := rp.CleanupNodeDataDir(p.fs, p.dirname); err != nil {
 			return 0, err
@@ -171,6 +166,18 @@ func (p *FSM) Open(_ <-chan struct{}) (uint64, error) {
 	db, err := p.openDB(dbdir)
 	if err != nil {
 		return 0, err
+	}
+	if newRun {
+		// Publish the DB directory only after it exists, saving the name syncs the node directory
+		// (and with it the entry of the DB directory) before the switch makes it current.
+		if err := rp.SaveCurrentDBDirName(p.fs, p.dirname, randomDir); err != nil {
+			_ = db.Close()
+			return 0, err
+		}
+		if err := rp.ReplaceCurrentDBFile(p.fs, p.dirname); err != nil {
+			_ = db.Close()
+			return 0, err
+		}
 	}
 	p.pebble.Store(db)
 
